@@ -852,8 +852,8 @@ static const int kFixed = 22;   // case 0: probes + ctor, case 1: fixed historie
 
 long verif::verif_ncases(const std::string & tier) {
     if (tier == "thorough") build_spaces(2, 4, 4); else build_spaces(2, 3, 3);
-    g_perShape = tier == "thorough" ? 100 : 240;
-    g_random = tier == "thorough" ? 4000 : 1000;    // larger random shapes: 2..6 factors of sizes 1..5
+    g_perShape = tier == "thorough" ? 400 : 240;
+    g_random = tier == "thorough" ? 20000 : 1000;    // larger random shapes: 2..6 factors of sizes 1..5
     run_probes();
     return kFixed + (long)g_spaces.size() * g_perShape + g_random;
 }
@@ -869,7 +869,7 @@ void verif::verif_case(Rng & rng, long idx, const std::string & tier) {
     if (idx == 1) { fixed_cases(); fmc_fixed(); return; }
     if (idx < kFixed) {
         // auxiliary streams, each in cases of its own (a crash in one stream does not hide the others): 4 cases per stream
-        const int rep = tier == "thorough" ? 200 : 40;
+        const int rep = tier == "thorough" ? 1000 : 40;
         const long stream = (idx - 2) / 4;
         for (int i = 0; i < rep; ++i) {
             if (stream == 0) indexmap_case(rng);
